@@ -34,7 +34,7 @@ FLAGS = ["--big-stack", "--code", "--credits", "--data", "--help", "--init", "--
          "--quiet", "--stdout", "--throttle", "--verbose", "--version", "--warn-octal-off", "--warn-return-off", "assemble",
          "debug", "disassemble", "preprocess", "-h", "-v", "-q"]
 ODD = ["0", "000", "--throttle=0", "--throttle=00", "--", "-", "--throttle=5", "--throttle=", "--throttle=abc", "--throttle=-1", "--throttle5", "--init=r1=5", "--init=",
-       "--init=zz", "--initx", "--bogus", "-x", "-hq", "--HELP", "5", "abc", "r1=5", "r1=5,r2=0x10", "R0=1", "r1=70000", "",
+       "--init=zz", "--init==5", "--init=r1=1, =2", "--init=r=5", "--init=R=", "--init=,", "--initx", "--bogus", "-x", "-hq", "--HELP", "5", "abc", "r1=5", "r1=5,r2=0x10", "R0=1", "r1=70000", "",
        " ", "--throttle=007", "--init=r1=5 r2=6", "p.hera", "q.hera", "--no-color=1", "assemble=1"]
 
 
@@ -51,7 +51,7 @@ def gen_argv(rng):
             f = rng.choice(FLAGS)
             argv.append(f)
             if f in ("--throttle", "--init") and rng.random() < 0.7:
-                argv.append(rng.choice(["0", "5", "000", "", "r1=5", "abc"]))
+                argv.append(rng.choice(["0", "5", "000", "", "r1=5", "abc", "=5", "r1=1, =2", "r=5", "=", ",", "r1=5,", "r" + "1" * 4400 + "=1"]))
         elif r < 0.8:
             argv.append(rng.choice(ODD))
         else:
@@ -309,7 +309,17 @@ def correspondence(ctx, model_available=True):
                     inits.add(a[i + 1])
                 if x.startswith("--init"):
                     inits.add(x[len("--init="):])
-            valid = [s for s in inits if parse_init_string(s) is not None]
+            valid = []
+            for s_ in inits:
+                try:
+                    if parse_init_string(s_) is not None:
+                        valid.append(s_)
+                except SystemExit:
+                    pass
+                except Exception as e:  # noqa
+                    if len(spec_failures) < 8:
+                        spec_failures.append({"what": "the --init value %r makes parse_init_string raise %s: %s (a traceback for the user)"
+                                                      % (s_[:60], type(e).__name__, str(e)[:80]), "argv": [x[:60] for x in a]})
             terms.append("enc_outcome (parse_args (fun s => existsb (String.eqb s) [%s]) [%s])" % (
                 "; ".join(coq_str(s) for s in valid), "; ".join(coq_str(x) for x in a)))
         outs = coqrun.eval_cases("C18a", HEADER, terms, shard=300)
